@@ -790,6 +790,10 @@ def pairs_topology(vk, cfg):
     vk.canary_bool("disjoint-cells-lose-a-face", len(r_.mesh.cells_faces) == 2 * nf)
 
 
+def _representative_symmetry(fi, nsym):
+    return (5 * fi + 3) % nsym
+
+
 def _pair_configs():
     out = []
     for ct in sorted(CELLS, key=lambda t: (not t.startswith("hexa"), t)):
@@ -801,7 +805,7 @@ def _pair_configs():
                 # 3D quick: one symmetry per face of A, chosen so that the six faces of B all occur; thorough: all 24
                 fi = 2 * k + (s + 1) // 2
                 for qi in range(nq_):
-                    quick = dim == 2 or qi == (5 * fi + 3) % nq_
+                    quick = dim == 2 or qi == _representative_symmetry(fi, nq_)
                     out.append(dict(cell=ct, coords=mode, k=k, s=s, Q=qi, **({} if quick else {"tier": "thorough"})))
     return out
 
@@ -818,7 +822,9 @@ def pairs(vk, cfg):
     n, dim = P.shape
     cells, pos, shared, fB = pair_topology(P, k, s, proper_symmetries(dim)[qi])
     reps = pair_representatives(P, cells, shared)
-    flux_clause = ct not in HI3 or vk.tier == "thorough"
+    # 20/27-node pairs: the flux clause needs the volume region of both cells (54 points, symbolic inverses): it is
+    # evaluated in the thorough tier on the six representative gluings; every other clause on all 144
+    flux_clause = ct not in HI3 or (vk.tier == "thorough" and qi == _representative_symmetry(2 * k + (s + 1) // 2, len(proper_symmetries(dim))))
     c = build(vk, ct, mode, cells=cells, pos=pos, reps=reps, volume=flux_clause, only_surface=True)
     r = c.region
     nq, nb = r.dA.shape[1], r.dA.shape[2]
@@ -838,7 +844,7 @@ def pairs(vk, cfg):
         V = vol.dV.sum()
         vk.ensures_eq("only_surface/flux==dim*volume", flux, dim * V, tol=TOL * 20)
     else:
-        vk.note("pairs[hexahedron20/27], quick tier: the flux clause of the pair is checked in the thorough tier (it is the sum of the per-cell flux identities of `cell` and the opposite interior contributions proved here)")
+        vk.note("pairs[hexahedron20/27]: the flux clause of the pair is checked in the thorough tier on the six representative gluings (it is the sum of the per-cell flux identities of `cell` and the opposite interior contributions, which are proved for every gluing)")
     # all faces: the interior face seen from both sides
     ra = construct(vk, c, only_surface=False)
     fa = [b for b, f in enumerate(ra._fd) if f["parent"] == 0 and f["ks"] == [(k, s)]]
@@ -969,15 +975,23 @@ def masked_region(bcls, mesh, mask, script, **kw):
 def _mask_configs():
     out = []
     for ct in CELLS:
-        dim = 2 if ct.startswith("quad") else 3
-        nq_ = len(proper_symmetries(dim))
+        el = CELLS[ct][2]()
+        P = ref_points(el)
+        dim = P.shape[1]
+        syms = proper_symmetries(dim)
         out.append(dict(cell=ct, mesh="single"))
         for k in range(dim):
             for s in (-1, 1):
-                fi = 2 * k + (s + 1) // 2
-                for qi in range(nq_):
+                seen = set()
+                for qi in range(len(syms)):
+                    fB = pair_topology(P, k, s, syms[qi])[3]
+                    if dim == 3 and fB in seen:
+                        continue  # 3D: one symmetry per (face of A, face of B) -- the selection does not look at coordinates
+                    seen.add(fB)
                     quick = (k, s) == (0, 1) and qi == (3 if dim == 2 else 8)
                     out.append(dict(cell=ct, mesh=f"pair:{k}:{s}:{qi}", **({} if quick else {"tier": "thorough"})))
+        if not any(c_.get("cell") == ct and c_["mesh"].startswith("pair") and "tier" not in c_ for c_ in out):
+            out.append(dict(cell=ct, mesh=f"pair:0:1:{3 if dim == 2 else 8}"))
     return out
 
 
